@@ -1,14 +1,13 @@
 (** C32 — property theorems only. *)
 From Coq Require Import List ZArith Bool Sorted.
-From C33 Require Import C32.Model C32.Spec C32.ProofsGpd C32.ProofsInv C32.ProofsRefute C32.ProofsMono C32.ProofsFix.
+From C33 Require Import C32.Model C32.Spec C32.ProofsGpd C32.ProofsInv C32.ProofsMono C32.ProofsExamples.
 Import ListNotations.
 Open Scope Z_scope.
 
-(** Partial (guard: for receipt-type pushes no run of deliverable entries fills the
-    size limit exactly): for every event sequence the acknowledged list is exactly
-    the deliverable sequence numbers after the resume point, in increasing order. *)
-Theorem C32_acked_contiguous_increasing : forall c st r0,
-  guard c st = true -> forall es,
+(** Full strength, every push type, store and size limit: for every event
+    sequence the acknowledged list is exactly the deliverable sequence numbers
+    after the resume point, in increasing order. *)
+Theorem C32_acked_contiguous_increasing : forall c st r0 es,
   let s := run_events c st (init_state r0) es in
   exists r, (0 < r0 -> r = r0) /\
             contiguous_from (c_kind c) st r (acked s) /\
@@ -16,26 +15,25 @@ Theorem C32_acked_contiguous_increasing : forall c st r0,
 Proof. exact acked_contiguous. Qed.
 Print Assumptions C32_acked_contiguous_increasing.
 
-(** The full-strength statement fails: the size-boundary gap. *)
-Theorem C32_refuted_gap : ~ C32_acked_contiguous_increasing_full.
-Proof. exact refuted_gap. Qed.
-Print Assumptions C32_refuted_gap.
+(** The same, as the named full-strength statement of Spec.v. *)
+Theorem C32_acked_contiguous_increasing_holds : C32_acked_contiguous_increasing_full.
+Proof. exact acked_contiguous. Qed.
+Print Assumptions C32_acked_contiguous_increasing_holds.
 
-(** Partial (same guard): the stored last push sequence is the registration value
-    or is covered by acknowledgements. *)
-Theorem C32_recorded_le_acked : forall c st r0,
-  guard c st = true -> forall es,
+(** Full strength: the stored last push sequence is the registration value or
+    is covered by acknowledgements. *)
+Theorem C32_recorded_le_acked : forall c st r0 es,
   let s := run_events c st (init_state r0) es in
   recorded_justified (c_kind c) st r0 (rcd s) (acked s).
 Proof. exact recorded_after_ack. Qed.
 Print Assumptions C32_recorded_le_acked.
 
-Theorem C32_recorded_le_acked_refuted : ~ C32_recorded_le_acked_full.
-Proof. exact refuted_recorded. Qed.
-Print Assumptions C32_recorded_le_acked_refuted.
+Theorem C32_recorded_le_acked_holds : C32_recorded_le_acked_full.
+Proof. exact recorded_after_ack. Qed.
+Print Assumptions C32_recorded_le_acked_holds.
 
-(** Full for block, header and result pushes: consecutive integers from the
-    resume point, and the stored sequence is the last acknowledged one. *)
+(** Block, header and result pushes: consecutive integers from the resume
+    point, and the stored sequence is the last acknowledged one. *)
 Theorem C32_block_kinds_consecutive : forall c st r0 es,
   c_kind c <> KRecv ->
   let s := run_events c st (init_state r0) es in
@@ -44,12 +42,10 @@ Theorem C32_block_kinds_consecutive : forall c st r0 es,
 Proof. exact block_kinds_consecutive. Qed.
 Print Assumptions C32_block_kinds_consecutive.
 
-(** getPushData under the guard: the payload is exactly the deliverable part of
-    start .. updateSeq. *)
-Theorem C32_getPushData_exact : forall c st start cnt seqs upd,
-  guard c st = true ->
-  gpd (c_kind c) st start cnt (c_maxsize c) = GData seqs upd ->
-  start - 1 <= upd /\ seqs = rf (matching (c_kind c) st) (start - 1) upd.
+(** getPushData: the payload is exactly the deliverable part of start .. updateSeq. *)
+Theorem C32_getPushData_exact : forall k st start cnt max seqs upd,
+  gpd k st start cnt max = GData seqs upd ->
+  start - 1 <= upd /\ seqs = rf (matching k st) (start - 1) upd.
 Proof. exact gpd_spec. Qed.
 Print Assumptions C32_getPushData_exact.
 
@@ -58,35 +54,50 @@ Theorem C32_getPushData_no_panic : forall k st start cnt max,
 Proof. exact gpd_no_panic. Qed.
 Print Assumptions C32_getPushData_no_panic.
 
-(** Liveness remark: a deliverable block larger than the size limit is never
-    passed by a receipt-type subscriber. *)
+(** Liveness remark: a block whose message is not smaller than the size limit is
+    never passed by a receipt-type subscriber. *)
 Theorem C32_oversize_block_stalls : forall c st s latest size has,
   c_kind c = KRecv -> 1 <= c_maxcnt c ->
   run s = true -> pend s = None -> sl s <= 0 -> 0 < lp s ->
-  lookup st (lp s + 1) = Some (size, has) -> c_maxsize c < size ->
+  lookup st (lp s + 1) = Some (size, has) -> c_maxsize c <= size ->
   let r := step c st s (ESeq latest) in
   lp (fst r) = lp s /\ rcd (fst r) = rcd s /\ acked (fst r) = acked s /\
   pend (fst r) = None /\ run (fst r) = true /\ snd r = [].
 Proof. exact oversize_stalls. Qed.
 Print Assumptions C32_oversize_block_stalls.
 
-(** The stored last push sequence never moves backwards (same guard). *)
-Theorem C32_recorded_monotone : forall c st r0, guard c st = true ->
-  forall es1 es2,
-    rcd (run_events c st (init_state r0) es1) <= rcd (run_events c st (init_state r0) (es1 ++ es2)).
+(** The stored last push sequence never moves backwards. *)
+Theorem C32_recorded_monotone : forall c st r0 es1 es2,
+  rcd (run_events c st (init_state r0) es1) <= rcd (run_events c st (init_state r0) (es1 ++ es2)).
 Proof. exact rcd_mono. Qed.
 Print Assumptions C32_recorded_monotone.
 
-(** The repaired receipt loop (work/C32/fix.diff) needs no guard: what it counts
-    it delivers, and a deliverable first entry is always taken. *)
+(** The repaired receipt loop: what it counts it delivers, and a deliverable
+    first entry below the size limit is always taken. *)
 Theorem C32_fix_no_skip : forall max n l seq total a it,
-  rcv_loop_fix max n l seq total = Some (a, it) ->
+  rcv_loop max n l seq total = Some (a, it) ->
   exists m : nat, it = Z.of_nat m /\ a = filter (hasl l seq) (zrange seq m).
-Proof. exact rcv_loop_fix_spec. Qed.
+Proof. exact rcv_loop_spec. Qed.
 Print Assumptions C32_fix_no_skip.
 
 Theorem C32_fix_progress : forall max n size tl seq a it,
-  rcv_loop_fix max (S n) ((size, true) :: tl) seq 0 = Some (a, it) ->
-  1 <= it /\ In seq a.
-Proof. exact rcv_loop_fix_progress. Qed.
+  size < max ->
+  rcv_loop max (S n) ((size, true) :: tl) seq 0 = Some (a, it) ->
+  1 <= it /\ exists a', a = seq :: a'.
+Proof. exact rcv_loop_progress. Qed.
 Print Assumptions C32_fix_progress.
+
+(** Task-level progress: a deliverable next block below the size limit is
+    posted by the next round. *)
+Theorem C32_deliverable_block_posted : forall c st s latest size,
+  c_kind c = KRecv -> 1 <= c_maxcnt c ->
+  run s = true -> pend s = None -> sl s <= 0 -> 0 < lp s ->
+  lp s < latest -> latest < Z.of_nat (length st) ->
+  lookup st (lp s + 1) = Some (size, true) -> size < c_maxsize c ->
+  let r := step c st s (ESeq latest) in
+  exists seqs upd,
+    snd r = [OPost (lp s + 1 :: seqs) upd] /\
+    pend (fst r) = Some (lp s + 1 :: seqs, upd) /\ lp s + 1 <= upd /\
+    lp (fst r) = lp s /\ rcd (fst r) = rcd s /\ acked (fst r) = acked s.
+Proof. exact deliverable_posted. Qed.
+Print Assumptions C32_deliverable_block_posted.
